@@ -39,18 +39,28 @@ def main():
         meta = json.load(open(os.path.join(sd, "meta.json")))
         prop = meta.get("property", i.split("-")[0])
         res = {"id": i, "property": prop}
+        check_only = os.environ.get("SEEDED_CHECK_ONLY") and os.path.exists(os.path.join(sd, "result.json"))
+        if check_only:  # demo / ctest outcomes were confirmed by an earlier full run: re-run the check only
+            res = json.load(open(os.path.join(sd, "result.json")))
         wt = "/tmp/seedwt-%s" % i
         sh("git -C %s worktree remove --force %s" % (REPO, wt))
         rc, out = sh("git -C %s worktree add --detach %s HEAD" % (REPO, wt))
         try:
+            if check_only:
+                rc, out = sh("git apply %s" % patch, cwd=wt)
+                res["patch_applies"] = rc == 0
+                raise_skip = True
+            else:
+                raise_skip = False
             # baseline demo
-            rc, out = build_demo(wt, demo, "/tmp/seed-demo-%s" % i)
-            res["demo_builds"] = rc == 0
-            rc0, out0 = sh("timeout 120 /tmp/seed-demo-%s" % i, cwd=wt) if rc == 0 else (99, out[-500:])
-            res["demo_passes_without_change"] = rc0 == 0
-            rc, out = sh("git apply %s" % patch, cwd=wt)
-            res["patch_applies"] = rc == 0
-            if rc == 0:
+            rc, out = (0, "") if raise_skip else build_demo(wt, demo, "/tmp/seed-demo-%s" % i)
+            if not raise_skip:
+                res["demo_builds"] = rc == 0
+                rc0, out0 = sh("timeout 120 /tmp/seed-demo-%s" % i, cwd=wt) if rc == 0 else (99, out[-500:])
+                res["demo_passes_without_change"] = rc0 == 0
+                rc, out = sh("git apply %s" % patch, cwd=wt)
+                res["patch_applies"] = rc == 0
+            if rc == 0 and not raise_skip:
                 rc, out = build_demo(wt, demo, "/tmp/seed-demo-%s" % i)
                 rc1, out1 = sh("timeout 120 /tmp/seed-demo-%s" % i, cwd=wt) if rc == 0 else (99, out[-500:])
                 res["demo_fails_with_change"] = rc1 != 0
